@@ -83,6 +83,11 @@ impl<'ctx> PriceRepositoryBuilder<'ctx> {
             // this must be an error returned, instead of log error.
             log::error!("price log should not contain the self-mention rate");
         }
+        if event.price_x.value.is_zero() || event.price_y.value.is_zero() {
+            // zero price doesn't give any rate information, and causes division by zero.
+            log::warn!("price log with zero amount is ignored");
+            return;
+        }
         self.insert_impl(source, event.date, event.price_x, event.price_y);
         self.insert_impl(source, event.date, event.price_y, event.price_x);
     }
